@@ -1176,6 +1176,9 @@ run_task(_task_t t)
 	if (t->t->max_simul < 077U/*077 means unset*/ &&
 	    !(t->nsim < (unsigned int)t->t->max_simul)) {
 		args[2U] = "-nd";
+	} else {
+		/* the args are shared between all tasks and runs */
+		args[2U] = NULL;
 	}
 
 	/* prep the IPC with echsx */
